@@ -66,6 +66,9 @@ type evalKey struct {
 
 // Engine evaluates SSA values to provenance terms.
 type Engine struct {
+	stepSite  map[*ssa.Function][]ssa.CallInstruction
+	stepOther map[*ssa.Function]bool
+	recovers int // 0 unknown, 1 no repository function calls recover, 2 some does
 	P *load.Program
 	// Atoms are repository functions that are not inlined: a call to one is
 	// a named call term (their own correctness is decided elsewhere).
@@ -471,11 +474,27 @@ func (e *Engine) evalParam(x *ssa.Parameter, ctx *Ctx) *Term {
 	}
 	// otherwise through all static callers, unless the function is API
 	callers := e.P.Callers[fn]
-	if len(callers) == 0 || isExported(fn) || usedAsValue(fn) {
+	sites, complete := e.stepSites(fn)
+	if len(callers)+len(sites) == 0 || isExported(fn) || !complete {
 		return own()
 	}
 	var alts []*Term
+	for _, c := range sites {
+		// handed to a helper as a step and called there through the parameter
+		if idx >= len(c.Common().Args) {
+			continue
+		}
+		if fr := e.activeFrame(c.Parent()); fr != nil {
+			e.deferCount++
+			alts = append(alts, e.Eval(c.Common().Args[idx], fr))
+			continue
+		}
+		alts = append(alts, e.Eval(c.Common().Args[idx], e.UnknownCtx(c.Parent())))
+	}
 	for _, c := range callers {
+		if c.Common().StaticCallee() != fn {
+			continue
+		}
 		if c.Parent() == fn {
 			continue // direct recursion
 		}
@@ -513,6 +532,116 @@ func isExported(fn *ssa.Function) bool {
 	}
 	return true
 }
+
+// stepSites lists the calls through a function value that can only call fn:
+// fn (or a literal of it) is passed to a repository helper whose parameter is
+// used for nothing but calling it, or is called directly as a literal.
+// complete is false when fn is used as a value in any other way.
+func (e *Engine) stepSites(fn *ssa.Function) (sites []ssa.CallInstruction, complete bool) {
+	if e.stepSite == nil {
+		e.stepSite = map[*ssa.Function][]ssa.CallInstruction{}
+		e.stepOther = map[*ssa.Function]bool{}
+		target := func(v ssa.Value) *ssa.Function {
+			for {
+				if ct, ok := v.(*ssa.ChangeType); ok {
+					v = ct.X
+					continue
+				}
+				break
+			}
+			switch x := v.(type) {
+			case *ssa.Function:
+				if e.P.InRepo(x) && x.Blocks != nil {
+					return x
+				}
+			case *ssa.MakeClosure:
+				if f, ok := x.Fn.(*ssa.Function); ok && e.P.InRepo(f) {
+					return f
+				}
+			}
+			return nil
+		}
+		for _, host := range e.P.Funcs {
+			for _, b := range host.Blocks {
+				for _, in := range b.Instrs {
+					if _, ok := in.(*ssa.DebugRef); ok {
+						continue
+					}
+					if _, ok := in.(*ssa.MakeClosure); ok {
+						continue // the literal's uses are those of the closure value
+					}
+					if _, ok := in.(*ssa.ChangeType); ok {
+						continue
+					}
+					var ops []*ssa.Value
+					for _, op := range in.Operands(ops) {
+						if op == nil || *op == nil {
+							continue
+						}
+						f := target(*op)
+						if f == nil {
+							continue
+						}
+						c, isCall := in.(ssa.CallInstruction)
+						if isCall && c.Common().Value == *op {
+							if _, lit := (*op).(*ssa.MakeClosure); lit {
+								e.stepSite[f] = append(e.stepSite[f], c) // literal called in place
+							}
+							continue // (a static call is not a value use)
+						}
+						resolved := false
+						if isCall {
+							if h := c.Common().StaticCallee(); h != nil && e.P.InRepo(h) && h.Blocks != nil {
+								for ai, a := range c.Common().Args {
+									if a != *op || ai >= len(h.Params) {
+										continue
+									}
+									refs := h.Params[ai].Referrers()
+									all := refs != nil && len(*refs) > 0
+									var calls []ssa.CallInstruction
+									if refs != nil {
+										for _, r := range *refs {
+											if _, ok := r.(*ssa.DebugRef); ok {
+												continue
+											}
+											rc, ok := r.(ssa.CallInstruction)
+											if !ok || rc.Common().Value != ssa.Value(h.Params[ai]) {
+												all = false
+												break
+											}
+											n := 0
+											for _, ra := range rc.Common().Args {
+												if ra == ssa.Value(h.Params[ai]) {
+													n++
+												}
+											}
+											if n > 0 {
+												all = false
+												break
+											}
+											calls = append(calls, rc)
+										}
+									}
+									if all {
+										resolved = true
+										e.stepSite[f] = append(e.stepSite[f], calls...)
+									}
+								}
+							}
+						}
+						if !resolved {
+							e.stepOther[f] = true
+						}
+					}
+				}
+			}
+		}
+	}
+	return e.stepSite[fn], !e.stepOther[fn]
+}
+
+// StepSites exposes stepSites.
+func (e *Engine) StepSites(fn *ssa.Function) ([]ssa.CallInstruction, bool) { return e.stepSites(fn) }
 
 func usedAsValue(fn *ssa.Function) bool {
 	refs := fn.Referrers()
